@@ -518,12 +518,47 @@ func (m *Machine) findGlobal(pkg, name string) *Cell {
 	return nil
 }
 
+// argFormat returns the format string. Bytes that are symbolic are decided one
+// by one: "is it '%'?" is a fork; a symbolic '%' followed by a symbolic byte is
+// followed only into the "%%" case (the other verbs end the path as not
+// encodable), which is enough to expose data used as a format string.
 func (m *Machine) argFormat(v Value) string {
-	s, ok := concreteStr(v.(*Str))
-	if !ok {
-		m.notEnc("symbolic format string")
+	st := v.(*Str)
+	m.fmtSymBytes = m.fmtSymBytes[:0]
+	if s, ok := concreteStr(st); ok {
+		return s
 	}
-	return s
+	pct := m.ctx.BV('%', 8)
+	out := make([]byte, 0, len(st.B))
+	for i := 0; i < len(st.B); i++ {
+		b := st.B[i]
+		if b.IsConst() {
+			out = append(out, byte(b.Val))
+			continue
+		}
+		if !m.branch(m.ctx.Eq(b, pct)) {
+			// an ordinary data byte: keep it symbolic through a placeholder
+			out = append(out, 0x01)
+			m.fmtSymBytes = append(m.fmtSymBytes, b)
+			continue
+		}
+		if i+1 >= len(st.B) {
+			out = append(out, '%')
+			continue
+		}
+		nx := st.B[i+1]
+		if nx.IsConst() {
+			out = append(out, '%')
+			continue
+		}
+		if m.branch(m.ctx.Eq(nx, pct)) {
+			out = append(out, '%', '%')
+			i++
+			continue
+		}
+		m.notEnc("symbolic verb in a symbolic format string")
+	}
+	return string(out)
 }
 
 // ---------------------------------------------------------------- assertions
@@ -1090,8 +1125,14 @@ func (m *Machine) fmtArg(verb byte, a Iface) *Str {
 func (m *Machine) format(f string, args []Value) *Str {
 	var out []*sym.Term
 	ai := 0
+	symIdx := 0
 	for i := 0; i < len(f); i++ {
 		ch := f[i]
+		if ch == 0x01 && symIdx < len(m.fmtSymBytes) {
+			out = append(out, m.fmtSymBytes[symIdx])
+			symIdx++
+			continue
+		}
 		if ch != '%' {
 			out = append(out, m.ctx.BV(uint64(ch), 8))
 			continue
